@@ -29,7 +29,7 @@ CHECKS = {
             "real adaptive loop/refine): every state reachable by <=D steps with <=s intervals chosen per step, for all coarsening "
             "versions, rebalancing and boundary flags and the rarely used constructor options (dim_adaptive=False, Chebyshev points, volume weighting); 1D-list laws, per-point coefficient sums and reproduction of all nodal unit "
             "functions checked in every state.",
-            "Bounds d<=3, D<=2..4, s<=2, domain [0,1]^d; canonical form = intervals+levels+coarsening, lmax, index sets.",
+            "Bounds d<=3 (incl. d=3 from (1,3), depth 2-3), D<=2..5, s<=2, domain [0,1]^d and one far from the origin; canonical form = intervals+levels+coarsening, lmax, index sets.",
             "explicit-state BFS over decision histories replayed on the real objects"),
     "C04": ("DESIGN.md 2/C04",
             "BFS over refinement histories of the dimension-wise, extend-split and cell strategies with a basis of the claimed "
@@ -43,7 +43,7 @@ CHECKS = {
             "extend-split (version 0) strategies; in every state the reported value is compared with the coefficient-weighted sum "
             "over fresh grid objects, with evaluate_final_combi(), with the same history run with reevaluate_at_end=True / "
             "recalculate_frequently=True, with the same history ended by its time budget (virtual clock seam), with solutions_storage and, at EVERY evaluation, with sum w f(p) over get_points_and_weights(); "
-            "other grid families (high-order, Lagrange, B-spline, Romberg, Simpson) under the dimension-wise and extend-split strategies; every earlier stop of an extend-split history re-evaluated (evaluate_final_combi) and then continued.",
+            "other grid families (high-order, Lagrange, B-spline, Romberg, Simpson) under the dimension-wise and extend-split strategies; every earlier stop of an extend-split history re-evaluated (evaluate_final_combi) and then continued; every dimension-adaptive script also ended by a real point budget.",
             "Bounds d<=3, D<=2..3, s<=2; relative tolerance 1e-11; integrand menu carried as one vector-valued function.",
             "explicit-state BFS over decision histories + exhaustive configuration lattice, differential oracle"),
     "C06": ("DESIGN.md 2/C06",
@@ -79,7 +79,7 @@ CHECKS = {
     "C10": ("DESIGN.md 2/C10",
             "Every tree of the C09 families x {Lagrange 1,2,3,5; B-spline 1,3,5} x boundary on/off (global grids, 1D and 2D pairs) and the "
             "local level/sub-box lattice: the identity is hierarchised and interpolated, every basis function is checked for the "
-            "Kronecker property, derivative and integral.",
+            "Kronecker property, derivative and integral; direct HierarchizationLSG calls with C-contiguous, Fortran-ordered and transposed value arrays.",
             "local grids only with boundary points (they cannot be constructed without); known finding: Lagrange p=5 polynomial degree.",
             "exhaustive tree/lattice enumeration, identity-matrix oracle"),
     "C11": ("DESIGN.md 2/C11",
@@ -93,7 +93,7 @@ CHECKS = {
             "evaluation with colliding points, cache reset, cache deactivation, counter read) on 12 real Function objects, lock-step "
             "with a reference model (pure scalar eval + a set); (every returned array is overwritten by the harness afterwards, as a caller computing in place would); (b) complete lattice of 31 built-in classes/parameterisations (incl. the "
             "base-class numeric integral and compositions with a discontinuous component) x d<=3 x all "
-            "boxes with corners in {0,1/4,1/2,1}^d (+ boxes off the unit cube; list, tuple and ndarray boxes) against composite Gauss-Legendre quadrature of eval.",
+            "boxes with corners in {0,1/4,1/2,1}^d (+ boxes off the unit cube; list, tuple and ndarray boxes) against composite Gauss-Legendre quadrature of eval; (c) the four evaluation paths (scalar, single calls, batch, eval_vectorized) of every class of the menu on a point lattice.",
             "Counter only compared while caching is on; UQNormal wrappers and FunctionGeneralizedNormal excluded (see assumptions).",
             "exhaustive operation-sequence enumeration with reference model + exhaustive input lattice"),
     "C13": ("DESIGN.md 2/C13",
@@ -102,7 +102,7 @@ CHECKS = {
             "with the real estimator (integrands incl. two whose refinement benefits are all exactly zero while the error stays above the tolerance), compared step by step with a reference model of the loop; distinct-evaluation counter "
             "kept by the harness-side integrand.",
             "d=2; eleven strategy variants (incl. a non-nested grid family and periodic recalculation); two-phase runs (incl. reevaluate_at_end in the first phase); time budgets "
-            "through a virtual clock owned by the explorer (mc/clock.py).",
+            "through a virtual clock owned by the explorer (mc/clock.py); a second call of the driver on the used object (known finding: the cell strategy never stops then).",
             "exhaustive configuration lattice, reference-model lock-step of the driver loop"),
     "C14": ("DESIGN.md 2/C14",
             "Crash-point enumeration: every evaluation index (incl. the last) of every uninterrupted run (with and without a reference "
@@ -146,11 +146,11 @@ CHECKS = {
             "Known findings: concatenate never refuses different scalings; revert_scaling is wrong once the set no longer contains the original minimum of a dimension. Exceptions on empty sets count as refusals.",
             "exhaustive operation-sequence enumeration with reference model"),
     "C19": ("DESIGN.md 2/C19",
-            "Complete lattice of learning configurations (3 labelled data sets incl. unlabelled samples and 1D x split percentage x even/uneven "
+            "Complete lattice of learning configurations (5 labelled data sets incl. unlabelled samples, 1D, gapped labels and a feature of extent 1e-3 x split percentage x even/uneven "
             "x standard/dimension-wise x explorer-chosen shuffle permutations) and on each learned object ALL call sequences of length 2 "
             "(thorough 3) over {__call__, test_data} x {inside, partly outside, entirely outside, with unlabelled, the classifier's own testing "
             "data as returned / reverted}; arg-max reference (densities recomputed from the surpluses) under "
-            "the learning-time scaling, removal rule, recomputed summary of every test_data call and of evaluate() over all stored testing data after every test step, earlier results unchanged.",
+            "the learning-time scaling (the class of a classifier = label of the samples it was trained on), removal rule, recomputed summary of every test_data call and of evaluate() over all stored testing data after every test step, earlier results unchanged.",
             "Ties within 1e-9 accept either class; the learned classifiers themselves are taken from the object (their correctness is C16/C17).",
             "exhaustive configuration lattice + operation-sequence enumeration with reference model"),
     "C20": ("DESIGN.md 2/C20",
